@@ -62,6 +62,14 @@ pub fn run(ctx: &mut Ctx, _replay: Option<&[String]>) {
             }
         }
     }
+    // BPSK far outside the usual operating range: the exact LLR -2r/sigma^2 is unbounded ("every received sample and every positive noise level")
+    for _ in 0..ctx.scale(2000, 100_000) {
+        let s = 10f64.powf(8.0 * rng.f64_unit() - 4.0);
+        let mag = 10f64.powf(12.0 * rng.f64_unit() - 6.0);
+        let re = if rng.chance(1, 2) { -mag } else { mag };
+        let l = BpskDemodulator::from_noise_sigma(s).demodulate(&[re]);
+        ctx.emit(&format!("c14 demb {} {}", hx(s), hx(re)), &hx(l[0]), true, &["bpsk-demodulate-extreme-range"]);
+    }
     for _ in 0..ctx.scale(6000, 1_000_000) {
         let s = (0.05f64.ln() + rng.f64_unit() * (10.0f64 / 0.05).ln()).exp();
         let re = 12.0 * rng.f64_unit() - 6.0;
